@@ -251,6 +251,9 @@ def run(ctx):
                 # the property itself: two definitions of the same function or global are rejected
                 direct_bad.append((kind, j, {"what": "a link in which the same function or global is defined twice was accepted instead of rejected", "order_of_AddModule": l["adds"],
                                              "linked_functions": l.get("fnkeys"), "linked_globals": l.get("globals")}))
+            if not l["ok"] and kind in ("split", "shaped") or (not l["ok"] and kind == "split+added-and-imported" and not any(a in imported_somewhere for a in l["adds"])):
+                # a well-formed split (no definition arrives twice) whose single-module form compiles must link
+                direct_bad.append((kind, j, {"what": "the linker rejected a well-formed split of a program that compiles as one module", "order_of_AddModule": l["adds"], "error": l.get("error")}))
             if l["ok"]:
                 # behaviour: the linked program against the single-module program, and against the VM model on the linked IR
                 prog = ircoq.program({"functions": l["ir"]["functions"], "globals": l["ir"]["globals"]})
